@@ -59,7 +59,32 @@ def impl(op, a):
         s = PusTcDataFieldHeader.unpack(bytes(a[0])); return [[s.service, s.subservice, s.source_id, s.ack_flags]]
     if op == 509:
         t = _new(a); t.pack(); return [list(t.pack(recalc_crc=False))]
+    if op == 510:
+        t = _new(a)
+        for o in a[2:]:
+            k = o[0]
+            if k == 0: t.pack()
+            elif k == 1: t.pack(recalc_crc=False)
+            elif k == 2: t.calc_crc()
+            elif k == 3: t.app_data = bytes(o[1:])
+            elif k == 4: t.seq_count = o[1]
+            elif k == 5: t.apid = o[1]
+            elif k == 6: t.source_id = o[1]
+        sp = t.to_space_packet().pack()
+        raw = t.pack()
+        return [list(sp), list(raw), [t.packet_len]]
     raise RuntimeError("bad op")
+
+
+def _final_values(a):
+    service, subservice, apid, seq, source_id, ack = a[0]
+    app = list(a[1])
+    for o in a[2:]:
+        if o[0] == 3: app = list(o[1:])
+        elif o[0] == 4: seq = o[1]
+        elif o[0] == 5: apid = o[1]
+        elif o[0] == 6: source_id = o[1]
+    return [[service, subservice, apid, seq, source_id, ack], app]
 
 
 def valid_args(a):
@@ -155,6 +180,20 @@ def streams(tier, rng):
         a = pc.rand_tc_args(rng, 20)
         cases.append((507, a + [pc.rbytes(rng, rng.randrange(0, 20))]))
     yield "app_data_setter", "exact", cases
+    # 9. histories: pack / calc_crc / setters in any order, then the space-packet view and pack
+    cases = []
+    for _ in range(6000 if big else 1200):
+        a = pc.rand_tc_args(rng, 12)
+        ops = []
+        for _ in range(rng.randrange(0, 6)):
+            k = rng.choice([0, 0, 1, 2, 3, 4, 5, 6])
+            if k == 3: ops.append([3] + pc.rbytes(rng, rng.randrange(0, 10)))
+            elif k == 4: ops.append([4, pc.pick(rng, pc.BND14, 16384)])
+            elif k == 5: ops.append([5, pc.pick(rng, pc.BND11, 2048)])
+            elif k == 6: ops.append([6, pc.pick(rng, pc.BND16, 65536)])
+            else: ops.append([k])
+        cases.append((510, a + ops))
+    yield "setter_histories_then_views", "exact", cases
 
 
 def oracle_spec(case, ires):
@@ -230,6 +269,17 @@ def oracle(case, ires, sres):
                 return ("C11/PusTc.app_data/stale-length", "after app_data := %d octets pack gives %s, a fresh TC gives %s" % (len(a[2]), ires[1][:16], exp[:16]))
             if ires[2] != [len(exp)]:
                 return ("C11/PusTc.app_data/stale-length", "after app_data := %d octets packet_len = %s but %d octets are packed" % (len(a[2]), ires[2], len(ires[1])))
+        return None
+    if op == 510:
+        f = _final_values(a)
+        if valid_args(f) and valid_args(a):
+            exp = pc.tc_layout(*f[0], f[1])
+            if err:
+                return ("C11/PusTc.history/raises", "valid history raised %s" % (ires,))
+            if ires[2] != exp or ires[3] != [len(exp)]:
+                return ("C11/PusTc.history/pack-differs-from-fresh", "after %s pack gives %s (packet_len %s), a fresh TC with the final values gives %s" % (a[2:], ires[2][:20], ires[3], exp[:20]))
+            if ires[1] != exp:
+                return ("C02/PusTc.to_space_packet/stale-octets", "after %s the space-packet view packs %s but pack() gives %s" % (a[2:], ires[1][-6:], exp[-6:]))
         return None
     if op == 506:
         if ires[1] != [int(pc.crc16(a[0]) == 0)]:
